@@ -77,7 +77,11 @@ def run(ctx):
     side_stage = g.stage_for(FROM_FEN, "side")
     # the table key of the placement stage's column counter follows the stage's current name
     table = dict(PANIC_TABLE)
-    table[("Board::%s*" % placement_stage.rsplit("::", 1)[-1], "assert", "Overflow:Add(usize)")] = table.pop(("<placement-stage>", "assert", "Overflow:Add(usize)"))
+    why_ = table.pop(("<placement-stage>", "assert", "Overflow:Add(usize)"))
+    for s_ in stages:
+        if "placement" in g.stage_kind(s_):
+            # (the counter lives in the placement stage or in the helper it hands each row to)
+            table[("Board::%s*" % s_.rsplit("::", 1)[-1], "assert", "Overflow:Add(usize)")] = why_
     ctx.rule("totality.panic-audit")
     a = panics.Audit(f).run([FROM_FEN, FROM_STR], skip=lambda k: "movegen" in k and False)
     n = panics.report(ctx, a, table, "panic")
